@@ -5,6 +5,7 @@ request.body; wsgi.input is a scripted/recording stream.  The record is a
 trace for specs/BodyTrace.tla (content-carrying) or specs/BodyNumTrace.tla
 (numbers only, any size)."""
 import io
+import sys
 import json
 import os
 import random
@@ -24,6 +25,11 @@ class Stream:
         self.ev = []
 
     def read(self, n=-1):
+        # what the streams of real servers do with absurd sizes (io.BytesIO, io.BufferedReader as wsgiref passes it)
+        if n is not None and n > sys.maxsize:
+            raise OverflowError("cannot fit 'int' into an index-sized integer")
+        if n is not None and n > 2 ** 48:
+            raise MemoryError()
         avail = len(self.data) - self.pos
         if n is None or n < 0:
             n_eff = avail
@@ -118,6 +124,26 @@ def body_app(buf, max_body):
         rq = app.request
         res['views'] = [len(rq.forms), len(rq.params), rq.json is None]
         return h()
+
+    @app.route('/s', method='POST')
+    def hs():
+        # the response is produced lazily (an echo / transcoding stream): the handler takes the body object, the bytes are read
+        # while the server iterates over the response, after the handler has returned
+        res.clear()
+        body = app.request.body
+        res['spooled'] = not isinstance(body, io.BytesIO)
+
+        def gen():
+            try:
+                data = body.read()
+                body.seek(0)
+                res['out'] = data
+                res['reread'] = 'same' if body.read() == data else 'differs'
+            except Exception as e:   # noqa
+                res['out'] = ('<%s while the response was iterated>' % type(e).__name__).encode()
+                res['reread'] = 'differs'
+            yield 'ok'
+        return gen()
     _apps[key] = (app, res)
     return _apps[key]
 
@@ -137,7 +163,7 @@ def run_real(mode, inp, cl, buf, max_body, schedule=None, rng=None, kind='cl', e
         st = io.BytesIO(b'J' * plain + bytes(inp))
         st.seek(plain)
         st.ev = []
-    env = base_environ(REQUEST_METHOD='POST', PATH_INFO='/f' if via == 'views' else '/b')
+    env = base_environ(REQUEST_METHOD='POST', PATH_INFO={'views': '/f', 'stream': '/s'}.get(via, '/b'))
     env['wsgi.input'] = st
     if ctype is None and rng is not None:
         ctype = rng.choice(CTYPES)       # request.body is the raw body whatever the media type says
